@@ -201,7 +201,8 @@ def subsets_nested_text_to_flat_json(lines, idxline):
     """
     data_all_subsets = []
     while True:
-        line = lines[idxline].strip()
+        # A delayed replication factor and its attributes are prefixed with dots
+        line = lines[idxline].strip().lstrip('.').strip()
         if line.startswith(TEXT_SECTION_HEADER):
             break
         if line.startswith(TEXT_SUBSET_HEADER):
